@@ -26,7 +26,11 @@ MAX_STEPS = 500_000
 
 def plan(tier, seed):
     n, per = (16, 40) if tier == 'quick' else (64, 120)
-    return [{'kind': 'gen', 'seed': s, 'count': per} for s in common.shard_seeds(seed, n)]
+    specs = [{'kind': 'gen', 'seed': s, 'count': per} for s in common.shard_seeds(seed, n)]
+    # the operator / cast grid of C09 in every usage position, both builds
+    for word in (2, 3):
+        specs.append({'kind': 'grid', 'word': word, 'tier': tier})
+    return specs
 
 
 def run_with_guards(lines, args):
@@ -37,10 +41,46 @@ def run_with_guards(lines, args):
     return Outcome(vm), g
 
 
+def grid_sources(spec):
+    from . import c09
+    vals = c09.grid(8 * spec['word'], True)
+    args = [str(v) for v in vals]
+    yield 'unary+casts', c09.unary_program(), args
+    for ta, tb in c09.COMBOS:
+        yield f'arith {ta},{tb}', c09.binary_program(c09.ARITH, ta, tb, 'value'), args
+        for pos in c09.POSITIONS:
+            yield f'compare {ta},{tb} as {pos}', c09.binary_program(c09.CMP, ta, tb, pos), args
+    for pos in c09.POSITIONS:
+        yield f'bool equality as {pos}', c09.binary_program(['==', '!='], 'bool', 'bool', pos), args
+
+
 def run_shard(spec):
     res = runner.new_result()
     from .. import env
     CompilerError, _ = env.compiler_error_types()
+    if spec['kind'] == 'grid':
+        global MAX_STEPS
+        MAX_STEPS = 30_000_000
+        word = spec['word']
+        for tag, src, args in grid_sources(spec):
+            res['evaluations'] += 1
+            case = diff.case_dict(src, args, word, diff.GENEROUS_STACK, gen='grid:' + tag)
+            lc = env.compile_src(src, word=word, stack=diff.GENEROUS_STACK, unchecked=False)
+            lu = env.compile_src(src, word=word, stack=diff.GENEROUS_STACK, unchecked=True)
+            oc, gc = run_with_guards(lc, args)
+            ou, gu = run_with_guards(lu, args)
+            runner.count(res, 'vm_steps', oc.steps + ou.steps)
+            if oc.klass == 'TIMEOUT' or ou.klass == 'TIMEOUT':
+                runner.count(res, 'vm_timeouts')
+                continue
+            runner.count(res, 'pairs_compared')
+            if oc.stream != ou.stream or oc.klass != ou.klass:
+                k = next((i for i, (a, b) in enumerate(zip(oc.out, ou.out)) if a != b), 0)
+                runner.fail(res, 'M-DIFF', f'grid {tag}: unchecked output differs from checked at byte {k}: {ou.out[max(0, k - 10):k + 10]!r} vs {oc.out[max(0, k - 10):k + 10]!r}',
+                            case, expected=oc.brief(), observed=ou.brief())
+                continue
+            res['nontrivial'].append(runner.case_id(src, word))
+        return res
     for i in range(spec['count']):
         s = spec['seed'] * 100003 + i
         if i % 2 == 0:
